@@ -200,13 +200,25 @@ def run(chk):
                 m = mk(c20_constants(tables, "nosv" if mk is c20.model_nosv else "nanos6"), os.path.join(common.REPO, "src", "emu"))
                 for k in range(chk.budget(25, 300)):
                     r = rng.fork("bd-%s-%d" % (m.name, k))
-                    ncpu, threads, desc, nbare = c20.gen_trace(r, m, False)
-                    jobs.append((m, k, ncpu, threads, desc))
+                    # one to three looms, each an independent process with its own CPUs, threads and tasks
+                    parts = []
+                    for li in range(r.choice([1, 2, 2, 3])):
+                        ncpu, threads, desc, nbare = c20.gen_trace(r.fork("l%d" % li), m, False)
+                        parts.append((ncpu, threads, desc))
+                    jobs.append((m, k, parts))
 
             def run_job(j):
-                m, k, ncpu, threads, desc = j
+                m, k, parts = j
                 d = os.path.join(wd, "%s-%d" % (m.name, k))
-                c20.write_trace(d, m, ncpu, threads)
+                tr = trace.Trace()
+                for li, (ncpu, threads, desc) in enumerate(parts):
+                    loom = "n%d" % li
+                    for tid, evs in threads.items():
+                        meta = trace.thread_meta(tid + 100 * li, 500 + li, loom, require={"ovni": "1.1.0", m.name: m.version},
+                                                 cpus=[(i, i + 10 * li) for i in range(ncpu)])
+                        meta.update(m.meta)
+                        tr.add_thread(loom, 500 + li, tid + 100 * li, meta, [trace.ev_bytes(mcv, clk, pl, jumbo=jb) for (clk, mcv, pl, jb) in evs])
+                tr.write(d)
                 rc, o, e = trace.run_tool(build, "ovniemu", ["-b"], d)
                 files = {}
                 if rc == 0:
@@ -216,20 +228,24 @@ def run(chk):
                             files[name] = open(p, errors="replace").read()
                 shutil.rmtree(d, ignore_errors=True)
                 return rc, e[-600:], files
-            for (m, k, ncpu, threads, desc), (rc, err, files) in zip(jobs, trace.pmap(run_job, jobs)):
-                chk.case(("bd", m.name, tuple(desc)))
-                chk.count("breakdown:" + ("accepted" if rc == 0 else "rejected"))
+            for (m, k, parts), (rc, err, files) in zip(jobs, trace.pmap(run_job, jobs)):
+                desc = [x for p_ in parts for x in p_[2]]
+                chk.case(("bd", m.name, len(parts), tuple(desc)))
+                chk.count("breakdown:%d-looms:%s" % (len(parts), "accepted" if rc == 0 else "rejected"))
                 if rc != 0:
+                    if len(parts) == 1:
+                        continue
+                    chk.notes.append("multi-loom breakdown trace rejected: %s" % err[-200:])
                     continue
                 nb += 1
-                clocks = [e[0] for evs in threads.values() for e in evs]
+                clocks = [e[0] for p_ in parts for evs in p_[1].values() for e in evs]
                 duration = max(clocks) - min(clocks)
                 bases = sorted(set(n.rsplit(".", 1)[0] for n in files))
                 if not any("breakdown" in b for b in bases):
                     chk.violation("no-breakdown-output:%s" % m.name, "ovniemu -b wrote no breakdown trace: %s" % bases, {"events": desc[:200]})
                 for b in bases:
                     for (kk, text) in check_set(files, b, None, duration, state, b == "thread"):
-                        chk.violation("%s:%s:%d" % (kk, m.name, k), text, {"model": m.name, "ncpu": ncpu, "events": desc[:400]})
+                        chk.violation("%s:%s:%d" % (kk, m.name, k), text, {"model": m.name, "looms": [{"ncpu": p_[0], "events": p_[2][:300]} for p_ in parts]})
         finally:
             shutil.rmtree(wd, ignore_errors=True)
     chk.coverage["breakdown_traces_checked"] = nb
